@@ -12,7 +12,8 @@
                                                       never finished) and Database::open with this configuration
           s<i> begin|commit|rollback|drop, s<i> <stmt>, db <stmt>, db batch <stmt> & …      as engine `hist`
   stmt:   sel|ins|upd|del as engine `hist`; values: decimal | null | 'lowercase' | ^<unit><n> (the unit repeated n times)
-  DDL and VACUUM are well-formed only while no session is open.
+  DDL is well-formed only while no session is open.  VACUUM rolls back every open transaction: the driver drops the
+  open sessions (silently) before the model's `vacuum` step; the engine leaks the session objects after the call.
   Output: one token per op; `reopen{hdr=<page_size>,<min_keys>,<siblings> <t>=[<row_id>,<v>,…;…] … !<name>=notfound …}` for a
           reopen (every table that should exist with its full contents, every dropped or unknown name), then ` | ` and the
           same observation at the end of the case.  Texts longer than 40 bytes print as `~<len>:<fnv1a32>`.
@@ -177,7 +178,7 @@ def parseOp (ws : List String) : Option WOp :=
   | s :: rest => if sessName s then (parseStmt rest).map (fun st => WOp.db (Op.exec s st)) else none
   | [] => none
 
-/-- DDL and VACUUM only while no session is open (`reopen` ends every session) -/
+/-- DDL only while no session is open (`reopen` and `vacuum` end every session) -/
 def wellFormed : List WOp → List String → Bool
   | [], _ => true
   | op :: ops, sess =>
@@ -188,7 +189,7 @@ def wellFormed : List WOp → List String → Bool
     | .db (.drop s) => wellFormed ops (sess.filter (· != s))
     | .create _ => sess.isEmpty && wellFormed ops sess
     | .dropTable _ => sess.isEmpty && wellFormed ops sess
-    | .vacuum => sess.isEmpty && wellFormed ops sess
+    | .vacuum => wellFormed ops []
     | .reopen _ _ => wellFormed ops []
     | _ => wellFormed ops sess
 
@@ -296,6 +297,10 @@ def observe (F : Flags) (w : WState) (live dead : List String) : WState × Strin
 def runOps (F : Flags) : List WOp → WState → List String → List String → List String → WState × List String × List String × List String
   | [], w, live, dead, acc => (w, live, dead, acc.reverse)
   | op :: ops, w, live, dead, acc =>
+    -- `Database::vacuum` rolls back every open transaction first (`abort_all`)
+    let w := match op with
+      | .vacuum => w.db.sessions.foldl (fun w' p => (stepW F.D F.R F.ideal w' (.db (.drop p.1))).1) w
+      | _ => w
     let (w1, o) := stepW F.D F.R F.ideal w op
     match op, o with
     | .create ts, .created _ =>
